@@ -996,6 +996,14 @@ class CSSMatch(_DocumentNav):
 
             # We can only adjust bounds within a variable index
             if var:
+                # Jump straight to the first `n` that can be in bounds instead of stepping one `n` at a time.
+                if a < 0 and idx > last_index + 1:
+                    count = (idx - (last_index + 1) - a - 1) // -a
+                    idx = last_idx = a * count + b
+                elif a > 0 and idx < 1:
+                    count = (1 - idx + a - 1) // a
+                    idx = last_idx = a * count + b
+
                 # Abort if our nth index is out of bounds and only getting further out of bounds as we increment.
                 # Otherwise, increment to try to get in bounds.
                 adjust = None
